@@ -304,6 +304,12 @@ theorem C15_length {bs : Bytes} {p : Proof} (h : decode bs = some p) :
   decode_length h
 
 open Model.Codec in
+/-- **C15 (announced degree).** `extension_degree_from_proof_bytes` returns, for every byte string the decoder
+    accepts, the degree of the decoded proof. -/
+theorem C15_degree_of {bs : Bytes} {p : Proof} (h : decode bs = some p) : degreeOf bs = some p.tag :=
+  degreeOf_decode h
+
+open Model.Codec in
 /-- **C15 (zero rounds: the known finding as the exact boundary).** -/
 theorem C15_zero_rounds (p : Proof) (h : p.li = []) : decode (encode p) ≠ some p := zero_rounds_refused p h
 
